@@ -48,7 +48,7 @@ fn main() {
             )
             .boxed(),
             PropPart::new("expiry0", 4_000, 100_000, |_| gen::exp_strategy(), |c, ctx| expiry::exp_check(c, ctx, 0, 5, false)).boxed(),
-            PropPart::new("expiry1", 64, 640, |_| gen::exp_strategy(), |c, ctx| expiry::exp_check(c, ctx, 1, 1300, true))
+            PropPart::new("expiry1", 192, 1920, |_| gen::exp_strategy(), |c, ctx| expiry::exp_check(c, ctx, 1, 1300, true))
                 .shrink_iters(8)
                 .boxed(),
         ],
